@@ -385,17 +385,20 @@ class CellBase(shapes.Shape, AccessPoint):  # pylint: disable=W0223
         if not isinstance(new_user, Node):
             raise TypeError("User must be Node object.")
 
+        user_pos = new_user.pos
         if relative_pos_bool is True:
             # If the position of the user is relative to the cell, that
             # means that the real and imaginary parts of new_user.pos
             # are in the [-1, 1] range. We need to convert them to an
             # absolute coordinate.
-            new_user.pos = new_user.pos * self.radius + self.pos
+            user_pos = new_user.pos * self.radius + self.pos
 
-        if not self.is_point_inside_shape(new_user.pos):
+        # Note that the user is only changed if it is really added
+        if not self.is_point_inside_shape(user_pos):
             raise ValueError("User position is outside the cell -> "
                              "User not added")
 
+        new_user.pos = user_pos
         new_user.set_parent_pos(self.pos)
         # Call add_user from AccessPoint class
         super().add_user(new_user)
@@ -1094,6 +1097,10 @@ class CellSquare(shapes.Rectangle, CellBase):
             If the user position is outside the cell (the user won't be
             added).
         """
+        if not isinstance(new_user, Node):
+            raise TypeError("User must be Node object.")
+
+        original_pos = new_user.pos
         if relative_pos_bool is True:
             # If the position of the user is relative to the cell, that
             # means that the real and imaginary parts of new_user.pos
@@ -1103,8 +1110,13 @@ class CellSquare(shapes.Rectangle, CellBase):
                             self._upper_coord.real) / 2
             new_user.pos = new_user.pos * half_side + self.pos
 
-        # Call add_user from CellBase class
-        super().add_user(new_user, relative_pos_bool=False)
+        try:
+            # Call add_user from CellBase class
+            super().add_user(new_user, relative_pos_bool=False)
+        except ValueError:
+            # The user was not added -> leave it as it was
+            new_user.pos = original_pos
+            raise
 
 
 class CellWrap(CellBase):
